@@ -477,7 +477,7 @@ func Engine() *worker.Engine {
 			if tier == "thorough" {
 				return scale(1500000)
 			}
-			return scale(40000)
+			return scale(100000)
 		},
 		Run: runC11,
 	}
